@@ -299,6 +299,8 @@ class SymExec:
                     nm = src(s.value.func)
                     if nm in ('print',) or nm.startswith('logging.') or nm.startswith('warnings.'):
                         continue
+                if getattr(self, 'on_expr', None) is not None and self.on_expr(s, env, self):
+                    continue
                 raise Unsupported('statement with side effect at line %s: %s' % (s.lineno, src(s)))
             if isinstance(s, ast.Pass):
                 continue
